@@ -58,7 +58,7 @@ func (vc *VC) heapGetQuiet(st *state, name string) string {
 func (vc *VC) heapSet(st *state, name, term string) {
 	// Backing-array heaps are named by declared constants (not macros) so that they can appear in
 	// quantifier patterns; everything else is a definition.
-	if strings.HasPrefix(name, "Arr_") && len(vc.capStack) == 0 {
+	if (strings.HasPrefix(name, "Arr_") || strings.HasPrefix(name, "Dom_") || strings.HasPrefix(name, "Val_")) && len(vc.capStack) == 0 {
 		n := vc.fresh(name)
 		vc.emit(fmt.Sprintf("(declare-const %s %s)", n, vc.heapNames[name]))
 		vc.emit(fmt.Sprintf("(assert (= %s %s))", n, term))
@@ -181,7 +181,13 @@ func (fr *frame) load(a *addr, st *state) T {
 		s := vc.sortOf(a.typ)
 		n := "Glob_" + sanitize(a.glob.Pkg.Pkg.Name()+"."+a.glob.Name())
 		vc.regHeap(n, s)
-		return T{vc.heapGet(st, n), s, a.typ}
+		v := T{vc.heapGet(st, n), s, a.typ}
+		if vc.P.globalIsConstErr(a.glob) {
+			// package-level error value: initialised once by errors.New / fmt.Errorf and never reassigned
+			vc.assume(st.reach, fmt.Sprintf("(and (> %s 0) (= %s %s))", v.S, v.S, vc.P.strLit("globalerr:"+a.glob.String())))
+			vc.assumedStd["package-level error variables initialised by errors.New and never reassigned are distinct non-nil constants"] = true
+		}
+		return v
 	}
 	bail("load: bad address")
 	return T{}
@@ -273,7 +279,9 @@ func (vc *VC) ghostInvariant(name, term string) string {
 			// the nil map (reference 0) has no keys
 			srt := vc.heapNames[name] // (Array Int (Array K Bool))
 			inner := srt[len("(Array Int ") : len(srt)-1]
-			return fmt.Sprintf("(= (select %s 0) ((as const %s) false))", term, inner)
+			ks := strings.TrimSuffix(strings.TrimPrefix(inner, "(Array "), " Bool)")
+			mh := vc.mhas(ks, term, "0", "k")
+			return fmt.Sprintf("(and (= (select %s 0) ((as const %s) false)) (forall ((k %s)) (! (not %s) :pattern (%s))))", term, inner, ks, mh, mh)
 		}
 	case "G_written":
 		return fmt.Sprintf("(forall ((r Int)) (! (<= 0 (select %s r)) :pattern ((select %s r))))", term, term)
